@@ -1,9 +1,9 @@
 INIT Init
 NEXT CovNext
 CONSTANTS
- DrainBug = TRUE
- LinkCode = TRUE
- DupPathBug = TRUE
+ DrainBug = FALSE
+ LinkCode = FALSE
+ DupPathBug = FALSE
  Ids <- QuickIds
 POSTCONDITION Report
 CHECK_DEADLOCK TRUE
